@@ -170,6 +170,10 @@ static void COCSdoTransferFinalize(CO_CSDO *csdo)
         csdo->Tfer.Size  = 0;
         csdo->Tfer.Tmt   = 0;
         csdo->Tfer.Call  = NULL;
+        if (csdo->Tfer.Tmr >= 0) {
+            /* stop timeout supervision of finished transfer */
+            (void)COTmrDelete(&(csdo->Node->Tmr), csdo->Tfer.Tmr);
+        }
         csdo->Tfer.Tmr   = -1;
         csdo->Tfer.Buf_Idx = 0;
         csdo->Tfer.TBit = 0;
@@ -186,6 +190,8 @@ static void COCSdoTimeout(void *parg)
 
     csdo = (CO_CSDO *)parg;
     if (csdo->State == CO_CSDO_STATE_BUSY) {
+        /* timeout timer is elapsed */
+        csdo->Tfer.Tmr = -1;
         /* Abort SDO transfer because of timeout */
         COCSdoAbort(csdo, CO_SDO_ERR_TIMEOUT);
         /* Finalize aborted transfer */
